@@ -685,6 +685,50 @@ def _collect_cmp(fn, S, term, out, depth=0):
             _collect_cmp(fn, S, S.operand(o), out, depth + 1)
 
 
+_CMP_OPS = ('Eq', 'Ne', 'Lt', 'Le', 'Gt', 'Ge')
+_CMP_CALLS = ('PartialEq::eq', 'PartialEq::ne', 'PartialOrd::lt', 'PartialOrd::le', 'PartialOrd::gt', 'PartialOrd::ge')
+
+
+def is_comparison_helper(facts, path):
+    """a function or closure of this crate whose return value is, on its single return path, a
+    comparison of (projections of) its own parameters: `|a, b| a != b`, `fn differs(a, b) -> bool`."""
+    if facts is None or not path:
+        return False
+    cache = facts.__dict__.setdefault('_cmp_helpers', {})
+    if path in cache:
+        return cache[path]
+    cache[path] = False
+    g = facts.fns.get(path)
+    if g is None or g.nb > 8:
+        return False
+    ds = g.defs.get(0, [])
+    if len(ds) != 1:
+        return False
+    S = sym(g)
+    t = ('call', ds[0][1]) if ds[0][0] == 'call' else S.def_term(ds[0], 0)
+
+    def from_args(x, depth=0):
+        if depth > 6:
+            return False
+        if x[0] == 'arg':
+            return True
+        if x[0] == 'place':
+            return from_args(x[1], depth + 1)
+        if x[0] == 'const':
+            return True
+        return False
+    ok = False
+    if t[0] == 'cmp' and t[1] in _CMP_OPS:
+        ok = from_args(t[2]) and from_args(t[3]) and (t[2][0] != 'const' or t[3][0] != 'const')
+    elif t[0] == 'call':
+        cs = CallSite(g, t[1], g.blocks[t[1]]['t'])
+        if cs.matches(_CMP_CALLS) and len(cs.t['a']) == 2:
+            ok = all(from_args(S.operand(a)) for a in cs.t['a'])
+    cache[path] = ok
+    return ok
+
+
+
 def _facts_for(fn, S, term, vals, mode, depth=0):
     """term (bool or enum valued) takes a value in vals on this edge."""
     out = []
@@ -740,6 +784,12 @@ def _facts_for(fn, S, term, vals, mode, depth=0):
             return out
         if cs.matches(('PartialEq::eq', 'PartialEq::ne', 'PartialOrd::lt', 'PartialOrd::le', 'PartialOrd::gt',
                        'PartialOrd::ge', 'Arc::ptr_eq', 'ptr::eq')):
+            o = []
+            for a in args:
+                _collect_cmp(fn, S, S.operand(a), o)
+            return o
+        if is_comparison_helper(fn.facts, cs.resolved or cs.declared):
+            # a local helper / closure whose whole result is a comparison of its parameters
             o = []
             for a in args:
                 _collect_cmp(fn, S, S.operand(a), o)
